@@ -86,14 +86,17 @@ def hybrid_worker(args):
         def _alarm(signum, frame):
             raise _Slow()
         signal.signal(signal.SIGALRM, _alarm)
-        signal.alarm(20)
+        signal.setitimer(signal.ITIMER_REAL, 20, 2)      # repeating: a first exception swallowed inside a finalizer is not the last
         try:
             X, J, Tm = m.solve_stochast(T, 1, exact=False, full_output=True)
-            signal.alarm(0)
+            signal.setitimer(signal.ITIMER_REAL, 0)
         except _Slow:
+            signal.setitimer(signal.ITIMER_REAL, 0)
             continue
         except Exception as ex:
-            signal.alarm(0)
+            signal.setitimer(signal.ITIMER_REAL, 0)
+            if "lam value too large" in repr(ex):
+                continue         # the generated model's population exploded (not a bounded-rate model): numpy refuses the Poisson mean
             out["bad"].append({"what": "solve_stochast raised", "detail": repr(ex)[:200], "pre_tau": pre_tau})
             continue
         out["runs"] += 1
